@@ -544,6 +544,9 @@ def run(R, ctx):
     only_trivia(R, ctx)
     effects(R, ctx, fams)
     shift_only_at_start(R, ctx)
+    # the header's line shift reaches each token once: a token shifted twice is written below where the generator stands, and the
+    # missing line breaks are pushed in front of it -- inside a string for the braces of an interpolated value (as C04.once)
+    walkers.double_application(R, ctx, "C18.shift-once", "shift_token_line")
     closer_checked(R, ctx)
     line_comment_classifier(R, ctx)
     patterns_compiled_separately(R, ctx)
